@@ -112,6 +112,10 @@ pub trait Shape: Flat + 'static {
     fn default_emp<K: Kont<Self>>(_k: K) -> Option<K::Out> {
         None
     }
+    /// `<Self as Default>::default()` read through the accessors, for sized types that implement `Default`
+    fn rust_default() -> Option<Value> {
+        None
+    }
     fn n_children(&self) -> usize {
         0
     }
@@ -359,6 +363,9 @@ macro_rules! leaf_sized_common {
         }
         fn default_emp<K: Kont<Self>>(k: K) -> Option<K::Out> {
             Some(k.call(<Self as FlatDefault>::default_emplacer()))
+        }
+        fn rust_default() -> Option<Value> {
+            Some(<Self as Default>::default().read())
         }
         fn op_self(&mut self, op: &Op) -> OpOut {
             match op {
@@ -888,6 +895,7 @@ pub struct VT {
     pub consts: Vec<(&'static str, usize)>,
     pub is_msg: bool,
     pub default_probe: bool,
+    pub rust_default: fn() -> Option<Value>,
     pub validate: fn(&[u8]) -> Result<(), Error>,
     pub from_bytes: fn(&[u8], ViewFn) -> Result<(), Error>,
     pub from_mut_bytes: fn(&mut [u8], ViewMutFn) -> Result<(), Error>,
@@ -965,6 +973,7 @@ pub fn vt<T: Shape + ?Sized>(name: &'static str, static_size: Option<usize>) -> 
         consts: T::consts(),
         is_msg: false,
         default_probe: T::default_emp(ProbeK).is_some(),
+        rust_default: T::rust_default,
         validate: vt_validate::<T>,
         from_bytes: vt_from_bytes::<T>,
         from_mut_bytes: vt_from_mut_bytes::<T>,
